@@ -104,7 +104,9 @@ class Interp:
             defs = getattr(self, "_bool_defs", None)
             if defs is None:
                 defs = {}
-                for st in ast.walk(self.fi.node):
+                # a helper defined inside another function reads that function's locals as free names
+                scopes = [self.fi.node] + ([self.fi._outer.node] if getattr(self.fi, "_outer", None) is not None else [])
+                for st in (x for sc in scopes for x in ast.walk(sc)):
                     if isinstance(st, ast.Assign) and len(st.targets) == 1 and isinstance(st.targets[0], ast.Name):
                         defs.setdefault(st.targets[0].id, []).append(st.value)
                     elif isinstance(st, (ast.AugAssign, ast.AnnAssign, ast.For, ast.With)) :
@@ -113,6 +115,7 @@ class Interp:
                                 defs.setdefault(x.id, []).append(None)
                 self._bool_defs = defs
             vs = defs.get(test.id, [])
+            vs = [v for i_, v in enumerate(vs) if not any(v is w for w in vs[:i_])]  # the outer walk meets the nested body again
             if len(vs) == 1 and isinstance(vs[0], (ast.BoolOp, ast.Compare, ast.UnaryOp, ast.Call)) and test.id not in self.fi.params:
                 return self._decide(vs[0], env, depth + 1)
         return None
